@@ -362,6 +362,47 @@ func c04Run(c c04Case) (v *verdict, labels []string, nontrivial bool, desc strin
 		return &verdict{Key: key, Msg: fmt.Sprintf("garble reverse of the obfuscated trace does not equal what the regular -trimpath build prints (frames %s, end %s, config %s)\n%s\n--- regular\n%s\n--- reversed\n%s", strings.Join(kinds, ">"), c.End, c.Cfg, diff, h.Clip(want.Stderr, 2500), h.Clip(revRes.Stdout, 2500))}, labels, nontrivial, desc
 	}
 
+	// long-line law: an obfuscated trace line that follows arbitrarily much unrelated text on the same
+	// line is still reversed, wherever in the line its tokens fall (offsets around the sizes I/O buffers
+	// come in: every offset of the line relative to a 4 KiB and a 64 KiB boundary).
+	{
+		gl, rl := strings.SplitAfter(got.Stderr, "\n"), strings.SplitAfter(revRes.Stdout, "\n")
+		k := -1
+		for i := range gl {
+			if i < len(rl) && gl[i] != rl[i] && strings.HasSuffix(gl[i], "\n") && len(gl[i]) < 400 {
+				k = i
+				break
+			}
+		}
+		if k >= 0 {
+			for _, base := range []int{4096, 65536} {
+				var in, wantOut strings.Builder
+				for o := 1; o < len(gl[k]); o++ {
+					pad := strings.Repeat("x", base-o-1) + " "
+					in.WriteString(pad + gl[k])
+					wantOut.WriteString(pad + rl[k])
+				}
+				ll := h.Run(h.Cmd{Dir: src, Env: box.Env(cfg), Args: append(append(append([]string{box.GarbleBin}, cfg.Flags()...), append([]string{"reverse"}, buildFlags...)...), "."), Stdin: in.String()})
+				if ll.Stdout != wantOut.String() || ll.Exit != 0 {
+					bad := ""
+					wls, ols := strings.SplitAfter(wantOut.String(), "\n"), strings.SplitAfter(ll.Stdout, "\n")
+					for i := range wls {
+						if i >= len(ols) || ols[i] != wls[i] {
+							o := "<missing>"
+							if i < len(ols) {
+								o = ols[i]
+							}
+							bad = fmt.Sprintf("line %d (obfuscated text starts at byte %d of the line)\n  want ...%q\n  got  ...%q", i+1, base-i-1, tailStr(wls[i], 160), tailStr(o, 160))
+							break
+						}
+					}
+					return violationf("C04/long-line", "an obfuscated trace line preceded by %d bytes of unrelated text on the same line is not reversed like the line alone (exit %d)\n%s", base, ll.Exit, bad), labels, nontrivial, desc
+				}
+			}
+			labels = append(labels, "long-line")
+		}
+	}
+
 	// pass-through law: text without obfuscated tokens comes back byte for byte, exit status 1
 	if len(c.Text) > 0 {
 		text := strings.Join(c.Text, "")
@@ -382,6 +423,13 @@ func c04Run(c c04Case) (v *verdict, labels []string, nontrivial bool, desc strin
 		}
 	}
 	return nil, labels, nontrivial, desc
+}
+
+func tailStr(s string, n int) string {
+	if len(s) > n {
+		return s[len(s)-n:]
+	}
+	return s
 }
 
 func safeIdx(xs []string, i int) string {
